@@ -285,6 +285,9 @@ type rtCmd struct {
 type rtProposer struct {
 	id    int
 	cache map[string]*rtMeta // absent key: never read; nil: observed absent
+	// noFence: this writer never invents write-fence values (it only carries
+	// the ones it read), like every real writer other than a migration task.
+	noFence bool
 }
 
 var simNodes = []uint64{1, 2, 3, 4}
@@ -320,7 +323,11 @@ func (p *rtProposer) upsertFrom(tp *simkit.Tape, ch chanRef) (rtMeta, string) {
 	m.Replicas = append([]uint64(nil), cur.Replicas...)
 	m.ISR = append([]uint64(nil), cur.ISR...)
 	var what string
-	switch tp.Weighted([]int{4, 2, 4, 2, 4, 2, 3, 2, 3, 2, 2, 2, 1}) {
+	wFence, wArb := 2, 1
+	if p.noFence {
+		wFence, wArb = 0, 0
+	}
+	switch tp.Weighted([]int{4, 2, 4, 2, 4, 2, 3, 2, 3, wFence, wFence, 2, wArb}) {
 	case 0:
 		m.LeaseUntilMS += int64(100 * (1 + tp.Intn(5)))
 		what = "renew-lease"
